@@ -6,10 +6,10 @@ CONSTANTS
   Brokers = {"r1", "r2", "r3"}
   ConsumerSet = {"c1", "c2"}
   Coords = {"A", "X"}
-  OpKinds = {"CreateStream", "DeleteStream", "Pause", "Resume", "SetReadonly", "ShrinkISR", "ExpandISR", "ChangeLeader", "PublishActivity"}
-  MaxOps = 3
+  OpKinds = {"CreateStream", "DeleteStream", "CreateGroup", "JoinGroup", "LeaveGroup", "ChangeCoordinator"}
+  MaxOps = 5
   MaxSnaps = 1
-  MaxRestarts = 1
+  MaxRestarts = 2
 INVARIANTS NoTombLive GroupsFine EpochsFine FlagsConsistent
 PROPERTIES A_RS_Streams A_RS_RoEff A_RS_GroupMembers A_NoDataLoss A_NoResurrection A_NoApplyError
 VIEW MCView
